@@ -129,6 +129,9 @@ class Sched:
         self.main = None
         self.switch_hook = switch_hook
         self.last_progress = _rtime.monotonic()
+        self.t_start = _rtime.monotonic()
+        self.wall_cap = cfg.get('wall_cap', 30.0)
+        self.wall_capped = False
         self.finished = False
         self.rr_last = 0
         # (k, phase): SIGINT is delivered to main at its k-th yield point,
@@ -324,7 +327,12 @@ class Sched:
         me.nyield += 1
         self.steps += 1
         self.ev(*info)
-        if self.steps > self.step_cap:
+        if self.steps > self.step_cap or (
+                self.steps & 255 == 0
+                and _rtime.monotonic() - self.t_start > self.wall_cap):
+            # harness limit: the run is abandoned as inconclusive
+            if self.steps <= self.step_cap:
+                self.wall_capped = True
             if me is self.main:
                 raise StepCap()
             self._post_to_main(StepCap())
